@@ -196,7 +196,7 @@ func (sc *spanClassifier) calleeName(e ast.Expr) string {
 		return ""
 	}
 	if f := Callee(sc.info, call); f != nil {
-		return f.Name()
+		return fnName(f)
 	}
 	return ""
 }
@@ -212,7 +212,7 @@ func (sc *spanClassifier) classify(e ast.Expr) (kind, how string) {
 	case sc.calleeName(e) == "indexSpan":
 		call := e.(*ast.CallExpr)
 		if c, ok := ast.Unparen(call.Args[0]).(*ast.CallExpr); ok && IsBuiltinCall(sc.info, c, "len") {
-			if sel, ok := ast.Unparen(c.Args[0]).(*ast.SelectorExpr); ok && sel.Sel.Name == "source" {
+			if sel, ok := ast.Unparen(c.Args[0]).(*ast.SelectorExpr); ok && selName(sel) == "source" {
 				return "token", "indexSpan(len(source)): end of input"
 			}
 		}
@@ -488,7 +488,7 @@ func ruleC10Errors(p *Program, r *Run) {
 			kind, how := sc.classify(sp)
 			// the span of another parseError is a token span by this very rule (induction over the construction sites)
 			if sel, ok := ast.Unparen(p.Resolve(sp)).(*ast.SelectorExpr); ok && kind != "token" {
-				if f := selField(info, sel); f != nil && f.Name() == "span" {
+				if f := selField(info, sel); f != nil && fldName(f) == "span" {
 					if t := info.TypeOf(sel.X); t != nil && (TypeStr(t) == "*parser.parseError" || TypeStr(t) == "parser.parseError") {
 						kind, how = "token", "span copied from another parseError (token span by this rule)"
 					}
